@@ -15,6 +15,13 @@ HARNESSES = {
         'what': 'stop_query / query_stopped are a plain flag, independent of the id counter',
         'oracle': 'c22_make_query',
     },
+    'c22_start_query_timer_resets': {
+        'complete': True, 'timeout': 600,
+        'what': 'start_query_timer(ms) from any prior stop flag: flag cleared before the timer is armed (ThreadTimer::new/start stubbed: no threads in Kani)',
+        'need_stubs': ['ThreadTimer :: new', 'ThreadTimer :: start'],
+        'oracle': 'c22_make_query',
+        'assumptions': ['kani stub: thread_timer::ThreadTimer::new / start replaced by no-ops (the timer thread itself, and the race with the search, are C23 and outside reach)'],
+    },
     'c22_make_query_resets': {
         'complete': True, 'timeout': 900,
         'what': 'make_query([functor]) from any prior stop flag / id counter clears the flag and restarts ids (callee recreate_variables stubbed)',
